@@ -66,6 +66,7 @@ type Contract struct {
 	Exhaustive []int       // loop ordinals that must be left only through their header
 	ErrorsFrom []string    // errorsfrom A, B: every returned error originates in a call of one of these
 	ReleasesLock bool      // releaseslock: no return with a sync mutex taken in the function still held
+	Forbids    []string    // forbids A, B: the function calls none of these (it runs with a lock they take)
 	HasErrorsFrom bool
 	RecvNonNil bool
 	Params     []string // optional explicit parameter names (for externals)
@@ -310,6 +311,14 @@ func ParseSpecFile(path string, pkgName string) (*SpecFile, error) {
 			for _, n := range strings.Split(rest, ",") {
 				if n = strings.TrimSpace(n); n != "" {
 					cur.ErrorsFrom = append(cur.ErrorsFrom, n)
+				}
+			}
+		case "forbids":
+			// forbids A, B: the function does not call A or B (typically: it runs with
+			// a mutex held that they would take again)
+			for _, n := range strings.Split(rest, ",") {
+				if n = strings.TrimSpace(n); n != "" {
+					cur.Forbids = append(cur.Forbids, n)
 				}
 			}
 		case "releaseslock":
